@@ -16,6 +16,7 @@ import (
 
 	"github.com/AdguardTeam/AdGuardHome/internal/vutil"
 	"github.com/stretchr/testify/require"
+	"gopkg.in/yaml.v3"
 )
 
 // C06 sequence harness: ONE long-lived DNSFilter per block, built by New from a
@@ -25,7 +26,10 @@ import (
 // After every table operation the live d.conf.Rewrites is dumped with its
 // derived fields.
 //
-//	C06.reset  autosave  n (domain answer kind ip)×n
+//	C06.reset  autosave  b name×b  n (domain answer kind ip)×n   (blocking rules ||name^)
+//	C06.reload               (save, YAML round trip, a NEW filter from what was saved)
+//	C06.list                 (GET /control/rewrite/list)
+//	C06.bad    add|del|upd   (malformed JSON body)
 //	C06.q      host qtype
 //	C06.write  same          (1: the live *Config, as home; 0: another object)
 //	C06.add    domain answer kind ip
@@ -38,6 +42,7 @@ var (
 	c06SeqConf *Config
 	c06SeqAuto bool
 	c06SeqDead bool
+	c06SeqFlt  []Filter
 	c06SeqSett = &Settings{ProtectionEnabled: true, FilteringEnabled: true}
 )
 
@@ -73,28 +78,43 @@ func c06SeqHTTP(h http.HandlerFunc, method string, body any) string {
 	return vutil.Itoa(w.Code)
 }
 
+// c06SeqNew replaces the long-lived filter by one created from rws.
+func c06SeqNew(rws []*LegacyRewrite) {
+	conf := &Config{Rewrites: rws}
+	conf.ConfigModified = func() {
+		// home: onConfigModified -> config.write -> filters.WriteDiskConfig(config.Filtering)
+		if c06SeqAuto {
+			c06SeqD.WriteDiskConfig(conf)
+		}
+	}
+	d, err := New(conf, c06SeqFlt)
+	require.NoError(c06SeqT, err)
+	if c06SeqD != nil && !c06SeqDead {
+		c06SeqD.Close()
+	}
+	c06SeqD, c06SeqConf, c06SeqDead = d, conf, false
+}
+
 func c06SeqRun(f []string) []string {
 	switch f[0] {
 	case "C06.reset":
 		c06SeqAuto = vutil.UnB(f[1])
-		n := vutil.Atoi(f[2])
+		nb := vutil.Atoi(f[2])
+		rules := ""
+		for i := 0; i < nb; i++ {
+			rules += "||" + vutil.Unhex(f[3+i]) + "^\n"
+		}
+		c06SeqFlt = nil
+		if nb > 0 {
+			c06SeqFlt = []Filter{{ID: 1, Data: []byte(rules)}}
+		}
+		f = f[3+nb:]
+		n := vutil.Atoi(f[0])
 		rws := make([]*LegacyRewrite, n)
 		for i := range rws {
-			rws[i] = &LegacyRewrite{Domain: vutil.Unhex(f[3+4*i]), Answer: vutil.Unhex(f[4+4*i])}
+			rws[i] = &LegacyRewrite{Domain: vutil.Unhex(f[1+4*i]), Answer: vutil.Unhex(f[2+4*i])}
 		}
-		conf := &Config{Rewrites: rws}
-		conf.ConfigModified = func() {
-			// home: onConfigModified -> config.write -> filters.WriteDiskConfig(config.Filtering)
-			if c06SeqAuto {
-				c06SeqD.WriteDiskConfig(conf)
-			}
-		}
-		d, err := New(conf, nil)
-		require.NoError(c06SeqT, err)
-		if c06SeqD != nil && !c06SeqDead {
-			c06SeqD.Close()
-		}
-		c06SeqD, c06SeqConf, c06SeqDead = d, conf, false
+		c06SeqNew(rws)
 
 		return c06SeqDump()
 	}
@@ -139,6 +159,42 @@ func c06SeqRun(f []string) []string {
 		d.WriteDiskConfig(c)
 
 		return append(c06SeqDump(), c06DumpRows(c.Rewrites)...)
+	case "C06.reload":
+		// What internal/home does over a restart: the configuration is written
+		// (WriteDiskConfig into the config object, YAML on disk) and a new
+		// filter is created from what was read back.
+		c := &Config{}
+		d.WriteDiskConfig(c)
+		data, err := yaml.Marshal(c.Rewrites)
+		require.NoError(c06SeqT, err)
+		var loaded []*LegacyRewrite
+		require.NoError(c06SeqT, yaml.Unmarshal(data, &loaded))
+		c06SeqNew(loaded)
+
+		return c06SeqDump()
+	case "C06.list":
+		w := httptest.NewRecorder()
+		d.handleRewriteList(w, httptest.NewRequest(http.MethodGet, "/control/rewrite/list", nil))
+		var arr []rewriteEntryJSON
+		require.NoError(c06SeqT, json.Unmarshal(w.Body.Bytes(), &arr))
+		out := []string{vutil.Itoa(len(arr))}
+		for _, e := range arr {
+			out = append(out, vutil.Hex(e.Domain), vutil.Hex(e.Answer))
+		}
+
+		return out
+	case "C06.bad":
+		h, m := d.handleRewriteAdd, http.MethodPost
+		switch f[1] {
+		case "del":
+			h = d.handleRewriteDelete
+		case "upd":
+			h, m = d.handleRewriteUpdate, http.MethodPut
+		}
+		w := httptest.NewRecorder()
+		h(w, httptest.NewRequest(m, "/control/rewrite/x", strings.NewReader(`{"domain": "x.com", "answer":`)))
+
+		return append([]string{vutil.Itoa(w.Code)}, c06SeqDump()...)
 	case "C06.add":
 		st := c06SeqHTTP(d.handleRewriteAdd, http.MethodPost,
 			rewriteEntryJSON{Domain: vutil.Unhex(f[1]), Answer: vutil.Unhex(f[2])})
@@ -205,12 +261,47 @@ func c06SeqGen(r *rand.Rand, emit vutil.Emit) {
 		}
 		var cur [][2]string
 		size := r.IntN(7)
-		f := []string{"C06.reset", vutil.B(r.IntN(3) == 0), vutil.Itoa(size)}
+		// blocking rules over names of the universe: a query the rewrites pass
+		// through must reach the rule engine, a rewritten one must not
+		var rules []string
+		if r.IntN(2) == 0 && !strings.ContainsAny(host, "* ") && !strings.Contains(host, "..") &&
+			!strings.HasPrefix(host, ".") && !strings.HasSuffix(host, ".") {
+			rules = append(rules, strings.ToLower(host))
+			if r.IntN(2) == 0 {
+				rules = append(rules, vutil.Pick(r, u.names))
+			}
+		}
+		f := []string{"C06.reset", vutil.B(r.IntN(3) == 0), vutil.Itoa(len(rules))}
+		for _, n := range rules {
+			f = append(f, vutil.Hex(n))
+		}
+		sizeIdx := len(f)
+		f = append(f, vutil.Itoa(size))
 		for i := 0; i < size; i++ {
 			e := newEntry()
 			cur = append(cur, c06Stored(e))
 			k, ip := c06Oracle(e[1])
 			f = append(f, vutil.Hex(e[0]), vutil.Hex(e[1]), k, ip)
+		}
+		// A chain that ends in an "A"/"AAAA" exception: processRewrites returns
+		// a non-rewritten result with a left-over canonical name, and the query
+		// for the alias must still reach the rule engines.
+		if r.IntN(5) == 0 && len(u.names) > 1 {
+			t := vutil.Pick(r, u.names)
+			alias := strings.ToLower(host)
+			if t != alias {
+				extra := [][2]string{{alias, t}, {t, vutil.Pick(r, []string{"A", "AAAA"})}}
+				if r.IntN(2) == 0 {
+					extra = append(extra, [2]string{t, vutil.Pick(r, c06V4)})
+				}
+				for _, e := range extra {
+					cur = append(cur, c06Stored(e))
+					k, ip := c06Oracle(e[1])
+					f = append(f, vutil.Hex(e[0]), vutil.Hex(e[1]), k, ip)
+				}
+				size += len(extra)
+				f[sizeIdx] = vutil.Itoa(size)
+			}
 		}
 		emit(f...)
 
@@ -247,8 +338,15 @@ func c06SeqGen(r *rand.Rand, emit vutil.Emit) {
 		nops := 3 + r.IntN(8)
 		for i := 0; i < nops; i++ {
 			switch p := r.IntN(100); {
-			case p < 40:
+			case p < 32:
 				query()
+			case p < 38:
+				emit("C06.list")
+			case p < 44:
+				emit("C06.reload")
+				query()
+			case p < 47:
+				emit("C06.bad", vutil.Pick(r, []string{"add", "del", "upd"}))
 			case p < 62:
 				emit("C06.write", vutil.B(r.IntN(5) > 0))
 				query()
@@ -283,6 +381,8 @@ func c06SeqGen(r *rand.Rand, emit vutil.Emit) {
 		}
 		emit("C06.write", "1")
 		query()
+		emit("C06.reload")
+		emit("C06.list")
 		query()
 	}
 }
